@@ -579,11 +579,15 @@ class ClassModificationArgument(Node):
         )
 
     def __deepcopy__(self, memo):
-        _scope, _deepcp = self.scope, self.__deepcopy__
+        _scope = self.scope
         self.scope, self.__deepcopy__ = None, None
-        new = copy.deepcopy(self, memo)
-        self.scope, self.__deepcopy__ = _scope, _deepcp
-        new.scope, new.__deepcopy__ = _scope, _deepcp
+        try:
+            new = copy.deepcopy(self, memo)
+        finally:
+            self.scope = _scope
+            del self.__deepcopy__
+        new.scope = _scope
+        del new.__deepcopy__
         return new
 
 
@@ -855,14 +859,18 @@ class Class(Node):
 
     def __deepcopy__(self, memo):
         # Avoid copying the entire tree
-        if self.parent is not None and self.parent not in memo:
+        if self.parent is not None and id(self.parent) not in memo:
             memo[id(self.parent)] = self.parent
 
-        _deepcp = self.__deepcopy__
+        # Shadow this hook on the instance while copying, then drop the instance
+        # attribute from both objects so that each uses the class's method, bound
+        # to itself, the next time it is copied.
         self.__deepcopy__ = None
-        new = copy.deepcopy(self, memo)
-        self.__deepcopy__ = _deepcp
-        new.__deepcopy__ = _deepcp
+        try:
+            new = copy.deepcopy(self, memo)
+        finally:
+            del self.__deepcopy__
+        del new.__deepcopy__
         return new
 
     def __repr__(self):
